@@ -38,14 +38,15 @@ CHOICES_ALIASES = {"list_name": ["list name"], "name": ["value"], "label": ["cap
 SETTINGS_ALIASES = {"form_id": ["id_string", "set_form_id"], "form_title": ["title", "set_form_title"]}
 
 TYPE_PREFIX_ALIASES = [
-    ("select_one ", ["select one ", "select1 ", "select one from "]),
-    ("select_multiple ", ["select all that apply ", "select all that apply from "]),
+    ("select_one ", ["select one ", "select1 ", "select one from ", "add select one prompt using "]),
+    ("select_multiple ", ["select all that apply ", "select all that apply from ", "add select multiple prompt using "]),
     ("select_one_from_file ", ["select one from file "]),
     ("select_multiple_from_file ", ["select multiple from file "]),
 ]
 TYPE_WHOLE_ALIASES = {
-    "integer": ["int"], "image": ["photo"], "begin group": ["begin_group"], "end group": ["end_group"],
-    "begin repeat": ["begin_repeat"], "end repeat": ["end_repeat"],
+    "integer": ["int"], "image": ["photo", "add image prompt", "add photo prompt"], "audio": ["add audio prompt"], "video": ["add video prompt"],
+    "file": ["add file prompt"], "deviceid": ["imei"], "begin group": ["begin_group"], "end group": ["end_group"],
+    "begin repeat": ["begin_repeat", "begin looped group", "begin lgroup"], "end repeat": ["end_repeat", "end looped group", "end lgroup"],
 }
 OR_OTHER = [" or_other", " or other", " or specify other"]
 TRUTHY = ["yes", "Yes", "YES", "true", "True", "TRUE", "true()"]
